@@ -28,6 +28,8 @@ class LoopbackServer(poll_pb2_grpc.PollConfigServicer, tracepoint_pb2_grpc.Snaps
         self.tps = []
         self.fail_send = None  # None | grpc.StatusCode | callable(request)->StatusCode|None
         self.send_gate = None  # optional threading.Event the send handler waits on
+        self.poll_delay = 0    # seconds every poll answer is delayed
+        self.polls_in_flight = 0
         self._server = grpc.server(futures.ThreadPoolExecutor(max_workers=8))
         poll_pb2_grpc.add_PollConfigServicer_to_server(self, self._server)
         tracepoint_pb2_grpc.add_SnapshotServiceServicer_to_server(self, self._server)
@@ -41,6 +43,13 @@ class LoopbackServer(poll_pb2_grpc.PollConfigServicer, tracepoint_pb2_grpc.Snaps
             self.polls.append((request, md, time.monotonic()))
             step = self.script.pop(0) if self.script else ('steady',)
             self.lock.notify_all()
+        if self.poll_delay:
+            with self.lock:
+                self.polls_in_flight += 1
+                self.lock.notify_all()
+            time.sleep(self.poll_delay)
+            with self.lock:
+                self.polls_in_flight -= 1
         kind = step[0]
         if kind == 'error':
             context.abort(step[1], 'scripted failure')
